@@ -4,7 +4,12 @@
    customer of the node that records a server is the customer of exactly that server.  Hence no two customers share a
    server, no server has two customers, at most c customers of the node hold a server, and a server is freed exactly
    when its customer leaves the node (a blocked customer keeps it).  At infinite-server nodes no customer records a
-   server.  Proved for every configuration, every state satisfying the invariant, every oracle of draws. *)
+   server.  In time (event_step_stays, server_stays): over one event a busy server keeps its customer unless a service
+   record of that customer at that node is written during the event (the customer is released).
+   Proved for every configuration, every state satisfying the invariant, every oracle of draws.
+   Structure: the invariant and list lemmas; K-steps (actions that keep queues, servers' (id, customer, busy) and every
+   customer's server entry, and only append records); *_decomp lemmas saying what start_service, accept, release, ... do
+   in those terms (reused by NonIdle.v); the walk over the engine functions; the property in words; an executable test. *)
 From Coq Require Import ZArith List Bool Lia Permutation.
 From RecordUpdate Require Import RecordUpdate.
 From CiwV Require Import Sx Prelude Routing.
@@ -100,11 +105,6 @@ Proof.
     + intros i k Hin Hk. apply Hi in Hin. rewrite (Hf _ Hin) in Hk. destruct (D _ _ Hin Hk) as (sv & Hs1 & Hs2 & Hs3).
       destruct (Hfrom _ Hs1) as (sv' & Hin' & E). unfold score in E. injection E as E1 E2 E3. exists sv'. split; [exact Hin'|]. split; congruence.
   - intros H i Hin. apply Hi in Hin. rewrite (Hf _ Hin). apply H. exact Hin.
-Qed.
-
-Lemma FinOK_ext_f c ids svs f f' : FinOK c ids svs f -> (forall i, f' i = f i) -> FinOK c ids svs f'.
-Proof.
-  intros H Hf. apply (NodeOK_ext (Some c) ids ids svs svs f f'); [tauto|reflexivity|intros; apply Hf|exact H].
 Qed.
 
 (* a customer without a server joins the node *)
@@ -251,14 +251,23 @@ Proof. intros H. unfold ient. rewrite find_del_ind by exact H. reflexivity. Qed.
 Lemma ient_find il i x : find_ind i il = Some x -> ient il i = Some (i_server x).
 Proof. unfold ient. intros ->. reflexivity. Qed.
 
-(* ---------- K: a step that keeps the shape, what the invariant sees of the servers, and every customer's server ---------- *)
+(* ---------- K: a step that keeps the shape, what the invariant sees of the servers, and every customer's server,
+   and only appends to the records of the current event ---------- *)
 Definition svmap (s : sim) := map (fun nd => map score (n_servers nd)) (nodes s).
-Definition K (s s' : sim) : Prop := shp s' = shp s /\ svmap s' = svmap s /\ forall i, ient (inds s') i = ient (inds s) i.
+Definition K (s s' : sim) : Prop :=
+  shp s' = shp s /\ svmap s' = svmap s /\ (forall i, ient (inds s') i = ient (inds s) i) /\ exists t, log s' = log s ++ t.
+Lemma K_ient s s' : K s s' -> forall i, ient (inds s') i = ient (inds s) i.
+Proof. intros (_ & _ & H & _). exact H. Qed.
 Lemma K_isv s s' : K s s' -> forall i, isv (inds s') i = isv (inds s) i.
-Proof. intros (_ & _ & H) i. apply ient_isv, H. Qed.
-Lemma K_refl s : K s s. Proof. repeat split; reflexivity. Qed.
+Proof. intros H i. apply ient_isv, (K_ient _ _ H). Qed.
+Lemma K_log s s' : K s s' -> exists t, log s' = log s ++ t.
+Proof. intros (_ & _ & _ & H). exact H. Qed.
+Lemma K_refl s : K s s. Proof. repeat split; try reflexivity. exists []. rewrite app_nil_r. reflexivity. Qed.
 Lemma K_trans a b c : K a b -> K b c -> K a c.
-Proof. intros (A1 & A2 & A3) (B1 & B2 & B3). split; [congruence|split; [congruence|intros i; rewrite B3; apply A3]]. Qed.
+Proof.
+  intros (A1 & A2 & A3 & t1 & A4) (B1 & B2 & B3 & t2 & B4).
+  split; [congruence|split; [congruence|split; [intros i; rewrite B3; apply A3|exists (t1 ++ t2); rewrite B4, A4, app_assoc; reflexivity]]].
+Qed.
 Lemma K_Idx s s' : K s s' -> Idx s -> Idx s'.
 Proof. intros (A & _). apply Idx_shape. exact A. Qed.
 Lemma K_WFx fl s s' : K s s' -> WFx fl s -> WFx fl s'.
@@ -293,13 +302,15 @@ Qed.
 
 (* a step that only touches fields the invariant does not look at *)
 Lemma K_eq s s' : nodes s' = nodes s -> inds s' = inds s -> exit_ids s' = exit_ids s -> exit_n s' = exit_n s ->
-  a_created (arr s') = a_created (arr s) -> K s s'.
-Proof. intros A B C D E. unfold K, shp, svmap. rewrite A, B, C, D, E. repeat split; reflexivity. Qed.
+  a_created (arr s') = a_created (arr s) -> (exists t, log s' = log s ++ t) -> K s s'.
+Proof. intros A B C D E F. unfold K, shp, svmap. rewrite A, B, C, D, E. repeat split; try reflexivity. exact F. Qed.
+Lemma log_same s s' : log s' = log s -> exists t, log s' = log s ++ t.
+Proof. intros ->. exists []. rewrite app_nil_r. reflexivity. Qed.
 
 (* writing a customer's record back with the server it had *)
 Lemma K_put_ind x s s' : put_ind x s = Ok (tt, s') -> ient (inds s) (i_id x) = Some (i_server x) -> K s s'.
 Proof.
-  unfold put_ind, modify. intros H Hx. inversion H. subst s'. clear H. unfold K, shp, svmap. cbn. repeat split.
+  unfold put_ind, modify. intros H Hx. inversion H. subst s'. clear H. unfold K, shp, svmap. cbn. repeat split; [|apply log_same; reflexivity].
   intros i. rewrite ient_put. destruct (i =? i_id x) eqn:E; [|reflexivity]. apply Z.eqb_eq in E. subst i. symmetry. exact Hx.
 Qed.
 
@@ -310,7 +321,7 @@ Proof.
   intros HI Hn Hs Hsc H. assert (Hid : n_id nd = j).
   { unfold nshape in Hs. injection Hs as -> _ _. apply (Idx_get _ _ _ HI Hn). }
   split; [eapply put_node_shape; [exact H|rewrite Hid; exact Hn|symmetry; exact Hs]|].
-  unfold put_node, modify in H. inversion H. subst s'. clear H. split; [|intros i; reflexivity].
+  unfold put_node, modify in H. inversion H. subst s'. clear H. split; [|split; [intros i; reflexivity|apply log_same; reflexivity]].
   unfold svmap. cbn. rewrite Hid. destruct (nthZ_nat _ _ _ Hn) as (k & Hk & Hnk). rewrite Hk, updZ_nat, upd_map.
   apply upd_same. rewrite nth_error_map, Hnk. cbn. f_equal. symmetry. exact Hsc.
 Qed.
@@ -331,18 +342,20 @@ Lemma KI_lift {A} e (o : option A) : KI (lift e o). Proof. apply KI_ro, ro_lift.
 Lemma KI_get_node j : KI (get_node j). Proof. apply KI_ro, ro_get_node. Qed.
 Lemma KI_get_ind i : KI (get_ind i). Proof. apply KI_ro, ro_get_ind. Qed.
 Lemma KI_modify (f : sim -> sim) :
-  (forall s, nodes (f s) = nodes s /\ inds (f s) = inds s /\ exit_ids (f s) = exit_ids s /\ exit_n (f s) = exit_n s /\ a_created (arr (f s)) = a_created (arr s)) ->
+  (forall s, nodes (f s) = nodes s /\ inds (f s) = inds s /\ exit_ids (f s) = exit_ids s /\ exit_n (f s) = exit_n s /\
+             a_created (arr (f s)) = a_created (arr s) /\ log (f s) = log s) ->
   KI (modify f).
-Proof. intros Hf s a s' _ H. inversion H. destruct (Hf s) as (A1 & A2 & A3 & A4 & A5). apply K_eq; assumption. Qed.
-Lemma KI_log_rec r : KI (log_rec r). Proof. apply KI_modify. intros s. repeat split. Qed.
+Proof. intros Hf s a s' _ H. inversion H. destruct (Hf s) as (A1 & A2 & A3 & A4 & A5 & A6). apply K_eq; try assumption. apply log_same. exact A6. Qed.
+Lemma KI_log_rec r : KI (log_rec r).
+Proof. intros s a s' _ H. unfold log_rec, modify in H. inversion H. apply K_eq; try reflexivity. exists [r]. reflexivity. Qed.
 Lemma KI_draw_arr : KI draw_arr.
-Proof. intros s a s' _ H. unfold draw_arr in H. destruct (d_arr (dr s)); inversion H. apply K_eq; reflexivity. Qed.
+Proof. intros s a s' _ H. unfold draw_arr in H. destruct (d_arr (dr s)); inversion H. apply K_eq; try reflexivity. apply log_same. reflexivity. Qed.
 Lemma KI_draw_batch : KI draw_batch.
-Proof. intros s a s' _ H. unfold draw_batch in H. destruct (d_batch (dr s)); inversion H. apply K_eq; reflexivity. Qed.
+Proof. intros s a s' _ H. unfold draw_batch in H. destruct (d_batch (dr s)); inversion H. apply K_eq; try reflexivity. apply log_same. reflexivity. Qed.
 Lemma KI_draw_svc : KI draw_svc.
-Proof. intros s a s' _ H. unfold draw_svc in H. destruct (d_svc (dr s)); inversion H. apply K_eq; reflexivity. Qed.
+Proof. intros s a s' _ H. unfold draw_svc in H. destruct (d_svc (dr s)); inversion H. apply K_eq; try reflexivity. apply log_same. reflexivity. Qed.
 Lemma KI_draw_unif : KI draw_unif.
-Proof. intros s a s' _ H. unfold draw_unif in H. destruct (d_unif (dr s)); inversion H. apply K_eq; reflexivity. Qed.
+Proof. intros s a s' _ H. unfold draw_unif in H. destruct (d_unif (dr s)); inversion H. apply K_eq; try reflexivity. apply log_same. reflexivity. Qed.
 
 Ltac k_step :=
   first
@@ -423,13 +436,6 @@ Section Servers.
     mstep H. destruct a. eapply K_trans; [exact K1|].
     match type of Hn with _ = Some ?nd0 => refine (K_put_node _ nd0 _ _ d (K_Idx _ _ K1 HI) Hn _ _ H); reflexivity end.
   Qed.
-  Lemma write_individual_record_K j x s s' : Idx s -> ient (inds s) (i_id x) = Some (i_server x) ->
-    write_individual_record cf j x s = Ok (tt, s') -> K s s'.
-  Proof.
-    intros HI Hx H. unfold write_individual_record in H. mstep H. mstep H.
-    assert (K1 : K s s0) by (eapply KI_log_rec; eauto).
-    eapply K_trans; [exact K1|]. eapply K_put_ind; [exact H|]. cbn. rewrite (proj2 (proj2 K1)). exact Hx.
-  Qed.
 
   (* ---------- how the invariant moves when one node and/or the customers' records change ---------- *)
   Lemma put_node_spec nd s s' : put_node nd s = Ok (tt, s') -> nodes s' = updZ (nodes s) (n_id nd - 1) nd /\ inds s' = inds s.
@@ -438,6 +444,12 @@ Section Servers.
   Proof. unfold put_ind, modify. intros H. inversion H. auto. Qed.
   Lemma draw_svc_spec s a s' : draw_svc s = Ok (a, s') -> nodes s' = nodes s /\ inds s' = inds s.
   Proof. unfold draw_svc. destruct (d_svc (dr s)); intros H; inversion H. auto. Qed.
+  Lemma put_node_log nd s s' : put_node nd s = Ok (tt, s') -> log s' = log s.
+  Proof. unfold put_node, modify. intros H. inversion H. reflexivity. Qed.
+  Lemma put_ind_log x s s' : put_ind x s = Ok (tt, s') -> log s' = log s.
+  Proof. unfold put_ind, modify. intros H. inversion H. reflexivity. Qed.
+  Lemma draw_svc_log s a s' : draw_svc s = Ok (a, s') -> log s' = log s.
+  Proof. unfold draw_svc. destruct (d_svc (dr s)); intros H; inversion H. reflexivity. Qed.
 
   Lemma Srv_step s s' k nd nd0 : nodes s' = upd (nodes s) k nd -> nth_error (nodes s) k = Some nd0 -> Srv cf s ->
     (forall nc, nth_error (cf_nodes cf) k = Some nc ->
@@ -502,7 +514,7 @@ Section Servers.
     intros HI H. unfold start_service in H. mstep H. mstep H. mstep H.
     assert (K1 : K s s0) by (eapply KI_draw_svc; eauto).
     mstep H. dtt.
-    assert (K2 : K s0 s1) by (eapply K_put_ind; [exact E0|cbn; rewrite (proj2 (proj2 K1)), Hid; apply ient_find; exact Hf]).
+    assert (K2 : K s0 s1) by (eapply K_put_ind; [exact E0|cbn; rewrite (K_ient _ _ K1), Hid; apply ient_find; exact Hf]).
     mstep H.
     assert (K3 : K s1 s') by (match type of Hn with _ = Some ?nd0 => refine (K_put_node _ nd0 _ _ j (K_Idx _ _ K2 (K_Idx _ _ K1 HI)) Hn _ _ H); reflexivity end).
     eapply K_trans; [exact K1|]. eapply K_trans; eauto.
@@ -542,17 +554,17 @@ Section Servers.
     start_service j c (Some sv) s = Ok (tt, s') ->
     exists ndk sv', nodes s' = upd (nodes s) k ndk /\ nshape ndk = nshape nd /\ n_servers ndk = put_server_l sv' (n_servers nd) /\
       sv_id sv' = sv_id sv /\ sv_cust sv' = Some c /\ sv_busy sv' = true /\ ient (inds s) c <> None /\
-      (forall i, ient (inds s') i = if i =? c then Some (Some (sv_id sv)) else ient (inds s) i).
+      (forall i, ient (inds s') i = if i =? c then Some (Some (sv_id sv)) else ient (inds s) i) /\ log s' = log s.
   Proof.
     intros Hj Hk Hidn H. unfold start_service in H.
-    mstep H. mstep H. mstep H. apply draw_svc_spec in E as [En0 Ei0].
-    mstep H. dtt. apply put_ind_spec in E as [En1 Ei1].
-    mstep H. apply put_node_spec in H as [En2 Ei2]. cbn [n_id set] in En2.
+    mstep H. mstep H. mstep H. pose proof (draw_svc_log _ _ _ E) as El0. apply draw_svc_spec in E as [En0 Ei0].
+    mstep H. dtt. pose proof (put_ind_log _ _ _ E) as El1. apply put_ind_spec in E as [En1 Ei1].
+    mstep H. pose proof (put_node_log _ _ _ H) as El2. apply put_node_spec in H as [En2 Ei2]. cbn [n_id set] in En2.
     match type of Hn with _ = Some ?v => assert (Hnd : v = nd);
       [ rewrite En1, En0, Hj, nthZ_of_nat, Hk in Hn; congruence | subst v ] end.
     rewrite Hidn, Hj, updZ_nat, En1, En0 in En2.
     eexists. eexists. split; [exact En2|]. split; [reflexivity|]. split; [reflexivity|]. split; [reflexivity|]. split; [reflexivity|]. split; [reflexivity|].
-    split; [rewrite (ient_find _ _ _ Hf); discriminate|].
+    split; [rewrite (ient_find _ _ _ Hf); discriminate|]. split; [|congruence].
     intros i. rewrite Ei2, Ei1, Ei0, ient_put. cbn [i_id i_server set]. rewrite Hid. reflexivity.
   Qed.
 
@@ -679,11 +691,11 @@ Section Servers.
     exists k nd ndk s1, j - 1 = Z.of_nat k /\ nth_error (nodes s) k = Some nd /\ nodes s1 = upd (nodes s) k ndk /\
       n_servers ndk = n_servers nd /\ (forall i', In i' (all_individuals ndk) <-> i' = i_id x \/ In i' (all_individuals nd)) /\
       (forall i', ient (inds s1) i' = if i' =? i_id x then Some (i_server x) else ient (inds s) i') /\
-      WFx fl s1 /\ begin_service_if_possible_accept cf j (i_id x) s1 = Ok (tt, s').
+      WFx fl s1 /\ log s1 = log s /\ begin_service_if_possible_accept cf j (i_id x) s1 = Ok (tt, s').
   Proof.
     intros HW H. unfold accept in H.
     mstep H. mstep H. dtt.
-    destruct (put_ind_nodes _ _ _ E) as [En Es]. apply put_ind_spec in E as [_ Ei].
+    pose proof (put_ind_log _ _ _ E) as El0. destruct (put_ind_nodes _ _ _ E) as [En Es]. apply put_ind_spec in E as [_ Ei].
     assert (W1 : WFx (i_id x :: fl) s0) by (eapply WFx_shape; eauto).
     mstep H.
     match type of Hl with match ?o with _ => _ end = _ => destruct o as [q|] eqn:Eq; [|discriminate Hl] end. injection Hl as <-.
@@ -696,10 +708,11 @@ Section Servers.
       unfold WFx. rewrite Hsh. unfold WFx, shp in W1.
       eapply WFsh_add; [exact W1|rewrite nth_error_map, Hnk; reflexivity|reflexivity|reflexivity|].
       cbn. rewrite Hkp, updZ_nat. eapply concat_upd_perm; [exact Hqk|]. rewrite Permutation_app_comm. reflexivity. }
+    pose proof (put_node_log _ _ _ E) as El1.
     apply put_node_spec in E as [En1 Ei1]. cbn [n_id set] in En1. rewrite Hidn, Hk, updZ_nat, En in En1.
     exists k. eexists. eexists. exists s1. split; [exact Hk|]. split; [exact Hnk|]. split; [exact En1|]. split; [reflexivity|].
     split; [intros i'; cbn [all_individuals n_queues set]; rewrite Hkp, updZ_nat; apply in_concat_upd_add; exact Hqk|].
-    split; [intros i'; rewrite Ei1, Ei, ient_put; reflexivity|]. split; [exact W2|exact H].
+    split; [intros i'; rewrite Ei1, Ei, ient_put; reflexivity|]. split; [exact W2|]. split; [congruence|exact H].
   Qed.
 
   (* the state between the two halves of accept: the customer is in the queue, begin_service_if_possible has not run *)
@@ -721,7 +734,7 @@ Section Servers.
 
   Lemma accept_srv j x fl s s' : WFx (i_id x :: fl) s -> Srv cf s -> i_server x = None -> accept cf j x s = Ok (tt, s') -> Srv cf s'.
   Proof.
-    intros HW HS Hx H. destruct (accept_decomp _ _ _ _ _ HW H) as (k & nd & ndk & s1 & Hk & Hnk & En & Hsv & Hmem & He & W1 & Hb).
+    intros HW HS Hx H. destruct (accept_decomp _ _ _ _ _ HW H) as (k & nd & ndk & s1 & Hk & Hnk & En & Hsv & Hmem & He & W1 & _ & Hb).
     eapply bsip_accept_srv; [exact W1| |exact Hb]. eapply accept_mid_srv; eauto.
   Qed.
 
@@ -751,21 +764,15 @@ Section Servers.
     - apply (Permutation_in _ (Permutation_sym P)) in H. destruct H as [<-|H]; auto.
     - apply (Permutation_in _ P). destruct H as [->|H]; [left; reflexivity|right; exact H].
   Qed.
-  Lemma write_individual_record_spec j x s s' : isv (inds s) (i_id x) = i_server x -> write_individual_record cf j x s = Ok (tt, s') ->
-    nodes s' = nodes s /\ shp s' = shp s /\ forall i, isv (inds s') i = isv (inds s) i.
-  Proof.
-    intros Hx H. unfold write_individual_record in H. mstep H. mstep H. dtt.
-    unfold log_rec, modify in E. inversion E. subst s0. clear E.
-    unfold put_ind, modify in H. inversion H. subst s'. clear H. cbn. split; [reflexivity|]. split; [reflexivity|].
-    intros i. rewrite isv_put. cbn [i_id i_server set]. destruct (i =? i_id x) eqn:E; [|reflexivity]. apply Z.eqb_eq in E. subst i. symmetry. exact Hx.
-  Qed.
 
   Lemma write_individual_record_ient j x s s' : ient (inds s) (i_id x) = Some (i_server x) -> write_individual_record cf j x s = Ok (tt, s') ->
-    nodes s' = nodes s /\ shp s' = shp s /\ forall i, ient (inds s') i = ient (inds s) i.
+    nodes s' = nodes s /\ shp s' = shp s /\ (forall i, ient (inds s') i = ient (inds s) i) /\
+    exists r, log s' = log s ++ [r] /\ r_id r = i_id x /\ r_node r = j /\ r_type r = 0.
   Proof.
     intros Hx H. unfold write_individual_record in H. mstep H. mstep H. dtt.
     unfold log_rec, modify in E. inversion E. subst s0. clear E.
     unfold put_ind, modify in H. inversion H. subst s'. clear H. cbn. split; [reflexivity|]. split; [reflexivity|].
+    split; [|eexists; split; [reflexivity|cbn; auto]].
     intros i. rewrite ient_put. cbn [i_id i_server set]. destruct (i =? i_id x) eqn:E; [|reflexivity]. apply Z.eqb_eq in E. subst i. symmetry. exact Hx.
   Qed.
 
@@ -779,6 +786,7 @@ Section Servers.
       WFx (i :: fl) t4 /\ WFx (i :: fl) t5 /\ WFx fl t6 /\
       nodes t4 = upd (nodes s) k ndk /\
       (forall i', ient (inds t4) i' = if i' =? i then Some (i_server x3) else ient (inds s) i') /\
+      (exists r, log t4 = log s ++ [r] /\ r_id r = i /\ r_node r = j /\ r_type r = 0) /\
       match nc_c nc with
       | None => freed = None /\ n_servers ndk = n_servers nd /\ i_server x3 = i_server x
       | Some _ => exists sid sv sv', freed = Some sid /\ i_server x = Some sid /\ find_server sid (n_servers nd) = Some sv /\
@@ -807,22 +815,25 @@ Section Servers.
       unfold WFx. rewrite Hsh. unfold WFx, shp in HW.
       eapply WFsh_rm; [exact HW|rewrite nth_error_map, Hnk; reflexivity|reflexivity|reflexivity|].
       cbn. rewrite Hkp, updZ_nat. symmetry. eapply concat_upd_perm_rm; [exact Hqk|]. apply remove_first_perm. exact Hl0. }
+    pose proof (put_node_log _ _ _ E) as El0.
     apply put_node_spec in E as [En0 Ei0]. cbn [n_id set] in En0. rewrite Hidn, Hk, updZ_nat in En0.
     mstep H. dtt. nm E t1.
+    pose proof (put_ind_log _ _ _ E) as El1.
     destruct (put_ind_nodes _ _ _ E) as [En1 Es1]. apply put_ind_spec in E as [_ Ei1].
     assert (Hf1 : forall i', ient (inds t1) i' = ient (inds s) i').
     { intros i'. rewrite Ei1, ient_put, Ei0. cbn [i_id i_server set]. rewrite Hid.
       destruct (i' =? i) eqn:E'; [apply Z.eqb_eq in E'; subst i'; symmetry; exact Hsx|reflexivity]. }
     assert (W1 : WFx (i :: fl) t1) by (eapply WFx_shape; eauto).
     mstep H. dtt. nm E t2.
-    apply write_individual_record_ient in E as (En2 & Es2 & Hf2); [|cbn [i_id i_server set]; rewrite Hid, Hf1; exact Hsx].
+    apply write_individual_record_ient in E as (En2 & Es2 & Hf2 & (r & El2 & Hr1 & Hr2 & Hr3)); [|cbn [i_id i_server set]; rewrite Hid, Hf1; exact Hsx].
+    cbn [i_id set] in Hr1. rewrite Hid in Hr1.
     assert (W2 : WFx (i :: fl) t2) by (eapply WFx_shape; eauto).
     mstep H. match type of Hb with ?b = _ => rename b into inf end. rewrite Hk, nthZ_of_nat in Hc.
     mstep H. match type of E with _ = Ok (?fr, ?sx) => rename fr into freed; rename sx into t3 end.
     assert (Hf2' : forall i', ient (inds t2) i' = ient (inds s) i') by (intros i'; rewrite Hf2; apply Hf1).
     assert (Hn2 : nodes t2 = upd (nodes s) k (nd <| n_queues := updZ (n_queues nd) (i_pprio x) q' |> <| n_pop := n_pop nd - 1 |> <| n_insvc := n_insvc nd - 1 |>))
       by (rewrite En2, En1; exact En0).
-    assert (C3 : exists ndk, WFx (i :: fl) t3 /\ nodes t3 = upd (nodes s) k ndk /\ (forall i', ient (inds t3) i' = ient (inds s) i') /\
+    assert (C3 : exists ndk, log t3 = log t2 /\ WFx (i :: fl) t3 /\ nodes t3 = upd (nodes s) k ndk /\ (forall i', ient (inds t3) i' = ient (inds s) i') /\
                  all_individuals ndk = concat (updZ (n_queues nd) (i_pprio x) q') /\
                  match nc_c nc with
                  | None => freed = None /\ n_servers ndk = n_servers nd /\ inf = true
@@ -837,15 +848,17 @@ Section Servers.
         mstep E. mstep E. dtt. apply ret_spec in E as [-> ->]. nm E0 t3.
         assert (Hsh3 : shp t3 = shp t2).
         { eapply put_node_shape; [exact E0|cbn [n_id set]; rewrite Hidn, Hn2, Hk, nthZ_of_nat; eapply nth_error_upd_eq; exact Hnk|reflexivity]. }
+        pose proof (put_node_log _ _ _ E0) as El3.
         apply put_node_spec in E0 as [En3 Ei3]. cbn [n_id set] in En3. rewrite Hidn, Hk, updZ_nat, Hn2, upd_upd in En3.
-        eexists. split; [eapply WFx_shape; eauto|]. split; [exact En3|]. split; [intros i'; rewrite Ei3; apply Hf2'|]. split; [reflexivity|].
+        eexists. split; [exact El3|]. split; [eapply WFx_shape; eauto|]. split; [exact En3|]. split; [intros i'; rewrite Ei3; apply Hf2'|]. split; [reflexivity|].
         exists sid, sv. eexists. split; [reflexivity|]. split; [exact Hl1|]. split; [exact Hl2|]. split; [reflexivity|].
         split; [cbn; apply (find_server_In _ _ _ Hl2)|]. split; [reflexivity|]. split; reflexivity.
-      - apply ret_spec in E as [-> ->]. eexists. split; [exact W2|]. split; [exact Hn2|]. split; [exact Hf2'|]. split; [reflexivity|].
+      - apply ret_spec in E as [-> ->]. eexists. split; [reflexivity|]. split; [exact W2|]. split; [exact Hn2|]. split; [exact Hf2'|]. split; [reflexivity|].
         split; [reflexivity|]. split; reflexivity. }
-    clear E. destruct C3 as (ndk & W3 & En3 & Hf3 & Hids & Hcase).
+    clear E. destruct C3 as (ndk & El3 & W3 & En3 & Hf3 & Hids & Hcase).
     mstep H. match type of Hf0 with _ = Some ?v => rename v into x2 end.
     mstep H. dtt. nm E t4.
+    pose proof (put_ind_log _ _ _ E) as El4.
     destruct (put_ind_nodes _ _ _ E) as [En4 Es4]. apply put_ind_spec in E as [_ Ei4].
     assert (W4 : WFx (i :: fl) t4) by (eapply WFx_shape; eauto).
     match type of H with context [accept cf d ?y] => set (x3 := y) in * end.
@@ -866,6 +879,7 @@ Section Servers.
     split; [exact Hk|]. split; [exact Hnk|]. split; [exact Hc|]. split; [exact Hf|]. split; [exact Hx3i|].
     split; [intros i'; rewrite Hids; apply Hmem|]. split; [exact W4|]. split; [exact W5|]. split; [exact W6|].
     split; [rewrite En4; exact En3|]. split; [exact Hf4|].
+    split; [exists r; split; [rewrite El4, El3, El2, El1, El0; reflexivity|auto]|].
     split.
     { destruct (nc_c nc).
       - destruct Hcase as (sid & sv & sv' & A1 & A2 & A3 & A4 & A5 & A6 & A7 & A8). exists sid, sv, sv'. rewrite A8 in Hx3. tauto.
@@ -930,7 +944,7 @@ Section Servers.
   Proof.
     induction f as [|f IH]; intros j i d fl s s' HW HS H; [discriminate|].
     destruct (release_decomp _ _ _ _ _ _ _ HW H) as
-      (k & nd & nc & x & ndk & x3 & freed & t4 & t5 & t6 & Hk & Hnk & Hc & Hf & Hx3i & Hmem & W4 & W5 & W6 & En4 & Hf4 & Hcase & Ebs & Eacc & Hrest).
+      (k & nd & nc & x & ndk & x3 & freed & t4 & t5 & t6 & Hk & Hnk & Hc & Hf & Hx3i & Hmem & W4 & W5 & W6 & En4 & Hf4 & Hlog & Hcase & Ebs & Eacc & Hrest).
     destruct (release_mid_srv _ _ _ _ _ _ _ _ _ _ _ HW HS Hnk Hc Hf Hmem W4 En4 Hf4 Hcase) as (S4 & Hx3 & Hfree).
     assert (S5 : Srv cf t5) by (eapply bsip_release_srv; [exact W4|exact S4|exact Hk|exact Hc|exact Hfree|exact Ebs]).
     assert (S6 : Srv cf t6).
@@ -961,7 +975,7 @@ Section Servers.
       (match type of E with (match ?l with _ => _ end) _ = _ => destruct l as [|i0 [|i1 r]] end;
        [discriminate E|apply ret_spec in E as [-> _]; apply K_refl|eapply KI_choice_uniform; eauto]); clear E; kc K1 end.
     mstep H; match type of Hf with _ = Some ?v => rename v into x end.
-    match type of Hf with find_ind _ (inds ?sa) = _ => assert (Hsx : ient (inds s) i = Some (i_server x)) by (etransitivity; [symmetry; apply (proj2 (proj2 Kc))|apply ient_find; exact Hf]) end.
+    match type of Hf with find_ind _ (inds ?sa) = _ => assert (Hsx : ient (inds s) i = Some (i_server x)) by (etransitivity; [symmetry; apply (K_ient _ _ Kc)|apply ient_find; exact Hf]) end.
     mstep H.
     mstep H; match type of E with _ = Ok (?v, _) => rename v into x1 end.
     match type of E with _ ?sa = Ok (_, ?sb) => assert (C1 : K sa sb /\ i_server x1 = i_server x /\ i_id x1 = i);
@@ -974,7 +988,7 @@ Section Servers.
     mstep H; mstep H; mstep H; kci KI_choice_weighted.
     mstep H; dtt.
     match type of E with put_ind ?y ?sa = Ok (_, ?sb) =>
-           assert (K1 : K sa sb) by (eapply K_put_ind; [exact E|cbn [i_id i_server set]; rewrite Hi1, Hs1, <- Hsx; apply (proj2 (proj2 Kc))]); clear E; kc K1 end.
+           assert (K1 : K sa sb) by (eapply K_put_ind; [exact E|cbn [i_id i_server set]; rewrite Hi1, Hs1, <- Hsx; apply (K_ient _ _ Kc)]); clear E; kc K1 end.
     mstep H.
     mstep H; dtt.
     match type of E with _ ?sa = Ok (_, ?sb) => assert (K1 : K sa sb);
@@ -1000,20 +1014,12 @@ Section Servers.
     - eapply release_srv; [exact (K_WFx _ _ _ K1 HW)|exact (Srv_K _ _ _ K1 HS)|exact Hr].
   Qed.
 
-  (* carry conservation and the invariant over a K-step *)
-  Ltac ks lem :=
-    match goal with
-    | W : WFx ?fl ?sa, S0 : Srv cf ?sa, E : _ ?sa = Ok (_, ?sb) |- _ =>
-      let Kn := fresh "Kn" in let W' := fresh "W" in let S' := fresh "S" in
-      assert (Kn : K sa sb) by (eapply lem; [eapply WFx_Idx; exact W|exact E]);
-      assert (W' := K_WFx _ _ _ Kn W); assert (S' := Srv_K _ _ _ Kn S0); clear E W S0 Kn
-    end.
   Lemma KI_mod_accepted : KI (modify (fun s => s <| arr := arr s <| a_accepted := a_accepted (arr s) + 1 |> |>)).
   Proof. apply KI_modify. intros s. repeat split. Qed.
 
   (* ---------- the arrival node ---------- *)
   Lemma release_individual_decomp j x s s' : Idx s -> release_individual cf j x s = Ok (tt, s') ->
-    exists s0 s1, nodes s0 = nodes s /\ shp s0 = shp s /\ inds s0 = put_ind_l x (inds s) /\ K s0 s1 /\
+    exists s0 s1, nodes s0 = nodes s /\ shp s0 = shp s /\ inds s0 = put_ind_l x (inds s) /\ log s0 = log s /\ K s0 s1 /\
       ((exists b, exit_accept x b s1 = Ok (tt, s')) \/ accept cf j x s1 = Ok (tt, s')).
   Proof.
     intros HI H. unfold release_individual in H.
@@ -1021,11 +1027,11 @@ Section Servers.
     try match goal with E : sys_population ?sa = Ok (_, ?sb) |- _ =>
       assert (Hsb : sb = sa) by (unfold sys_population in E; mstep E; apply ret_spec in E as [-> _]; reflexivity); subst sb; clear E end.
     mstep H. dtt.
-    destruct (put_ind_nodes _ _ _ E) as [En Es]. apply put_ind_spec in E as [_ Ei].
+    pose proof (put_ind_log _ _ _ E) as El. destruct (put_ind_nodes _ _ _ E) as [En Es]. apply put_ind_spec in E as [_ Ei].
     exists s0. assert (I0 : Idx s0) by (eapply Idx_shape; eauto).
     assert (Hfin : forall s1, K s0 s1 -> ((exists b, exit_accept x b s1 = Ok (tt, s')) \/ accept cf j x s1 = Ok (tt, s')) ->
-              exists s1, nodes s0 = nodes s /\ shp s0 = shp s /\ inds s0 = put_ind_l x (inds s) /\ K s0 s1 /\
-                ((exists b, exit_accept x b s1 = Ok (tt, s')) \/ accept cf j x s1 = Ok (tt, s'))) by (intros s1 K1 Hc; exists s1; auto).
+              exists s1, nodes s0 = nodes s /\ shp s0 = shp s /\ inds s0 = put_ind_l x (inds s) /\ log s0 = log s /\ K s0 s1 /\
+                ((exists b, exit_accept x b s1 = Ok (tt, s')) \/ accept cf j x s1 = Ok (tt, s'))) by (intros s1 K1 Hc; exists s1; split; [exact En|split; [exact Es|split; [exact Ei|split; [exact El|split; [exact K1|exact Hc]]]]]).
     match type of H with (if ?b then _ else _) _ = _ => destruct b end.
     - mstep H. dtt. eapply Hfin; [eapply KI_write_br_record; eauto|left; eauto].
     - mstep H. mstep H.
@@ -1041,7 +1047,7 @@ Section Servers.
     release_individual cf j x s = Ok (tt, s') -> Srv cf s'.
   Proof.
     intros HW HS Hx H.
-    destruct (release_individual_decomp _ _ _ _ (WFx_Idx _ _ HW) H) as (s0 & s1 & En & Es & Ei & K1 & Hc).
+    destruct (release_individual_decomp _ _ _ _ (WFx_Idx _ _ HW) H) as (s0 & s1 & En & Es & Ei & _ & K1 & Hc).
     assert (W0 : WFx (i_id x :: fl) s0) by (eapply WFx_shape; eauto).
     assert (S0 : Srv cf s0).
     { eapply Srv_inds; [exact En| |exact HS]. intros k nd i Hk Hi. rewrite Ei, isv_put.
@@ -1092,28 +1098,30 @@ Section Servers.
     exact (Srv_K _ _ _ (K2 (WFx_Idx _ _ W2)) S2).
   Qed.
 
-  (* one event = a K-step, the event proper of the arrival node or of a service node, a K-step *)
-  Lemma event_step_decomp s s' : Idx s -> event_step cf s = Ok (tt, s') ->
-    exists s1 s2, K s s1 /\ (arrival_have_event cf s1 = Ok (tt, s2) \/ exists j, finish_service cf j s1 = Ok (tt, s2)) /\ (Idx s2 -> K s2 s').
+  (* one event = the records of the previous event are dropped, the event proper of the arrival node or of a service node, a K-step *)
+  Lemma event_step_decomp s s' : event_step cf s = Ok (tt, s') ->
+    exists s2, (arrival_have_event cf (s <| log := [] |>) = Ok (tt, s2) \/ exists j, finish_service cf j (s <| log := [] |>) = Ok (tt, s2)) /\
+               (Idx s2 -> K s2 s').
   Proof.
-    intros HI H. unfold event_step in H.
-    mstep H. dtt.
-    match goal with E : modify ?f ?sa = Ok (_, ?sb) |- _ =>
-      assert (K1 : K sa sb) by (refine (KI_modify f _ _ _ _ HI E); intros ?; repeat split); clear E end.
+    intros H. unfold event_step in H.
+    mstep H. dtt. unfold modify in E. inversion E. subst s0. clear E.
     mstep H. mstep H. dtt.
-    eexists. eexists. split; [exact K1|]. split.
+    eexists. split.
     { match type of E with (if ?b then _ else _) _ = _ => destruct b end; [left; exact E|right; eexists; exact E]. }
     intros I2. mstep H. mstep H. dtt.
-    assert (K2 : K s1 s2) by (eapply KI_update_all; eauto).
+    assert (K2 : K s0 s1) by (eapply KI_update_all; eauto).
     eapply K_trans; [exact K2|]. eapply KI_find_next_active_node; [exact (K_Idx _ _ K2 I2)|exact H].
   Qed.
+
+  Lemma Srv_log0 s : Srv cf s -> Srv cf (s <| log := [] |>).
+  Proof. intros HS k nd nc Hk Hc. exact (HS k nd nc Hk Hc). Qed.
 
   (* ---------- T2 for C04: one event ---------- *)
   Theorem event_step_srv s s' : SrvInv cf s -> event_step cf s = Ok (tt, s') -> SrvInv cf s'.
   Proof.
     intros [HW HS] H. split; [eapply event_step_conserves; eauto|].
-    destruct (event_step_decomp _ _ (WFx_Idx _ _ HW) H) as (s1 & s2 & K1 & Hev & K2).
-    pose proof (K_WFx _ _ _ K1 HW) as W1. pose proof (Srv_K _ _ _ K1 HS) as S1.
+    destruct (event_step_decomp _ _ H) as (s2 & Hev & K2).
+    assert (W1 : WFx [] (s <| log := [] |>)) by (eapply WFx_shape; [|exact HW]; reflexivity). pose proof (Srv_log0 _ HS) as S1.
     assert (C2 : WFx [] s2 /\ Srv cf s2).
     { destruct Hev as [Ha|[j Hf]]; [split; [eapply arrival_have_event_spec; eauto|eapply arrival_have_event_srv; eauto]
                                    |split; [eapply finish_service_spec; eauto|eapply finish_service_srv; eauto]]. }
@@ -1129,6 +1137,199 @@ Section Servers.
     destruct (event_step cf (s <| dr := d |>)) as [[u s1]| |] eqn:E; try discriminate. destruct u.
     eapply IH; [|exact H]. eapply event_step_srv; [|exact E]. destruct HJ as [HW HS].
     split; [eapply WFx_shape; [|exact HW]; reflexivity|apply Srv_dr; exact HS].
+  Qed.
+
+  (* ---------- a server stays with its customer until the customer leaves the node ---------- *)
+  Definition at_node (s : sim) (k : nat) (i : Z) : Prop := exists nd, nth_error (nodes s) k = Some nd /\ In i (all_individuals nd).
+  (* a service record of customer i at node k+1 has been written during the current event: i has been released from the node *)
+  Definition left_node (s : sim) (k : nat) (i : Z) : Prop :=
+    exists r, In r (log s) /\ r_id r = i /\ r_node r = Z.of_nat k + 1 /\ r_type r = 0.
+  Definition Stay (s s' : sim) : Prop :=
+    (exists t, log s' = log s ++ t) /\
+    forall k i sid, at_node s k i -> isv (inds s) i = Some sid -> (at_node s' k i /\ isv (inds s') i = Some sid) \/ left_node s' k i.
+
+  Lemma Stay_refl s : Stay s s.
+  Proof. split; [exists []; rewrite app_nil_r; reflexivity|]. intros k i sid Ha Hs. left. auto. Qed.
+  Lemma Stay_trans a b c : Stay a b -> Stay b c -> Stay a c.
+  Proof.
+    intros [[t1 L1] A] [[t2 L2] B]. split; [exists (t1 ++ t2); rewrite L2, L1, app_assoc; reflexivity|].
+    intros k i sid Ha Hs. destruct (A k i sid Ha Hs) as [[Hb Hsb]|(r & Hr & Hr')]; [apply B; assumption|].
+    right. exists r. split; [rewrite L2; apply in_or_app; left; exact Hr|exact Hr'].
+  Qed.
+  (* a step that keeps, for every customer that is at a node, its node and its server *)
+  Lemma Stay_keep s s' : (exists t, log s' = log s ++ t) ->
+    (forall k i, at_node s k i -> at_node s' k i /\ isv (inds s') i = isv (inds s) i) -> Stay s s'.
+  Proof. intros L H. split; [exact L|]. intros k i sid Ha Hs. left. destruct (H k i Ha) as [A B]. split; [exact A|congruence]. Qed.
+  Lemma Stay_K s s' : K s s' -> Stay s s'.
+  Proof.
+    intros HK. apply Stay_keep; [exact (K_log _ _ HK)|]. intros k i (nd & Hk & Hi).
+    destruct (K_sym_nth _ _ _ _ HK Hk) as (nd' & Hk' & Hsh & _). split; [exists nd'; rewrite (nshape_all _ _ Hsh); auto|apply (K_isv _ _ HK)].
+  Qed.
+  (* node k is rewritten with at least the customers it had; entries change only for customers that are at no node or have no server *)
+  Lemma Stay_upd s s' k nd ndk : nodes s' = upd (nodes s) k ndk -> nth_error (nodes s) k = Some nd ->
+    (forall i, In i (all_individuals nd) -> In i (all_individuals ndk)) -> (exists t, log s' = log s ++ t) ->
+    (forall k' i sid, at_node s k' i -> isv (inds s) i = Some sid -> isv (inds s') i = Some sid) -> Stay s s'.
+  Proof.
+    intros En Hk Hsub L He. split; [exact L|]. intros k' i sid (nd' & Hk' & Hi) Hs. left. split; [|eapply He; [exists nd'; eauto|exact Hs]].
+    destruct (Nat.eq_dec k k') as [<-|Hne].
+    - exists ndk. rewrite En. split; [eapply nth_error_upd_eq; exact Hk|]. apply Hsub. congruence.
+    - exists nd'. rewrite En, nth_error_upd_neq by exact Hne. auto.
+  Qed.
+
+  Lemma Stay_start j c sv s s' k nd : Idx s -> j - 1 = Z.of_nat k -> nth_error (nodes s) k = Some nd -> isv (inds s) c = None ->
+    start_service j c (Some sv) s = Ok (tt, s') -> Stay s s'.
+  Proof.
+    intros HI Hj Hk Hnone H. assert (Hidn : n_id nd = j) by (pose proof (HI k nd Hk); lia).
+    destruct (start_service_decomp _ _ _ _ _ _ _ Hj Hk Hidn H) as (ndk & sv' & En & Hsh & _ & _ & _ & _ & _ & He & Hl).
+    eapply Stay_upd; [exact En|exact Hk|rewrite (nshape_all _ _ Hsh); auto|apply log_same; exact Hl|].
+    intros k' i sid _ Hs. rewrite <- Hs. apply ient_isv. rewrite He. destruct (i =? c) eqn:E; [|reflexivity].
+    apply Z.eqb_eq in E. subst i. congruence.
+  Qed.
+
+  Lemma Stay_bsip_accept j i s s' : Idx s -> begin_service_if_possible_accept cf j i s = Ok (tt, s') -> Stay s s'.
+  Proof.
+    intros HI H. destruct (bsip_accept_decomp _ _ _ _ HI H) as (s0 & k & nd & nc & K0 & Hj & Hnk & Hc & Hcase).
+    eapply Stay_trans; [apply Stay_K; exact K0|]. pose proof (K_Idx _ _ K0 HI) as I0.
+    destruct (nc_c nc) as [c0|]; [|apply Stay_K; exact Hcase].
+    destruct Hcase as (cand & s1 & Hch & Hrest).
+    assert (K1 : K s0 s1) by (eapply KI_choose_next_customer; eauto).
+    eapply Stay_trans; [apply Stay_K; exact K1|].
+    destruct cand as [c|]; [|assert (s' = s1) by (destruct (find_free_server (n_servers nd)); exact Hrest); subst s'; apply Stay_refl].
+    destruct (find_free_server (n_servers nd)) as [sv|]; [|subst s'; apply Stay_refl].
+    destruct (choose_spec _ _ _ _ I0 Hch) as (_ & _ & Hnone).
+    destruct (K_sym_nth _ _ _ _ K1 Hnk) as (nd1 & Hnk1 & _ & _).
+    eapply Stay_start; [exact (K_Idx _ _ K1 I0)|exact Hj|exact Hnk1|rewrite (K_isv _ _ K1); exact Hnone|exact Hrest].
+  Qed.
+
+  Lemma Stay_bsip_release j freed s s' : Idx s -> begin_service_if_possible_release cf j freed s = Ok (tt, s') -> Stay s s'.
+  Proof.
+    intros HI H. unfold begin_service_if_possible_release in H.
+    destruct freed as [sid|]; [|apply ret_spec in H as [-> _]; apply Stay_refl].
+    mstep H. match type of Hn with _ = Some ?v => rename v into nd end.
+    destruct (find_server sid (n_servers nd)) as [sv|]; [|apply ret_spec in H as [-> _]; apply Stay_refl].
+    mstep H. assert (K1 : K s s0) by (eapply KI_choose_next_customer; eauto).
+    eapply Stay_trans; [apply Stay_K; exact K1|].
+    match type of H with (match ?cand with _ => _ end) _ = _ => destruct cand as [c|] end; [|apply ret_spec in H as [-> _]; apply Stay_refl].
+    destruct (choose_spec _ _ _ _ HI E) as (_ & _ & Hnone).
+    destruct (nthZ_nat _ _ _ Hn) as (k & Hk & Hnk). destruct (K_sym_nth _ _ _ _ K1 Hnk) as (nd1 & Hnk1 & _ & _).
+    eapply Stay_start; [exact (K_Idx _ _ K1 HI)|exact Hk|exact Hnk1|rewrite (K_isv _ _ K1); exact Hnone|exact H].
+  Qed.
+
+  Lemma Stay_accept j x fl s s' : WFx (i_id x :: fl) s -> accept cf j x s = Ok (tt, s') -> Stay s s'.
+  Proof.
+    intros HW H. destruct (accept_decomp _ _ _ _ _ HW H) as (k & nd & ndk & s1 & Hk & Hnk & En & Hsv & Hmem & He & W1 & Hl & Hb).
+    eapply Stay_trans; [|eapply Stay_bsip_accept; [exact (WFx_Idx _ _ W1)|exact Hb]].
+    eapply Stay_upd; [exact En|exact Hnk|intros i Hi; apply Hmem; right; exact Hi|apply log_same; exact Hl|].
+    intros k' i sid (nd' & Hk' & Hi) Hs. rewrite <- Hs. apply ient_isv. rewrite He. destruct (i =? i_id x) eqn:E; [|reflexivity].
+    apply Z.eqb_eq in E. subst i. exfalso. eapply WFx_flying; [exact HW|left; reflexivity|exact Hk'|exact Hi].
+  Qed.
+
+  Lemma Stay_exit_accept x c fl s s' : WFx (i_id x :: fl) s -> exit_accept x c s = Ok (tt, s') -> Stay s s'.
+  Proof.
+    intros HW H. unfold exit_accept in H. mstep H. dtt.
+    unfold del_ind, modify in E. inversion E. subst s0. clear E.
+    unfold modify in H. inversion H. subst s'. clear H.
+    apply Stay_keep; [apply log_same; reflexivity|]. intros k i (nd & Hk & Hi). split; [exists nd; auto|]. cbn. apply isv_del.
+    intros ->. eapply WFx_flying; [exact HW|left; reflexivity|exact Hk|exact Hi].
+  Qed.
+
+  Lemma Stay_release : forall f j i d fl s s', WFx fl s -> release cf f j i d s = Ok (tt, s') -> Stay s s'.
+  Proof.
+    induction f as [|f IH]; intros j i d fl s s' HW H; [discriminate|].
+    destruct (release_decomp _ _ _ _ _ _ _ HW H) as
+      (k & nd & nc & x & ndk & x3 & freed & t4 & t5 & t6 & Hk & Hnk & Hc & Hf & Hx3i & Hmem & W4 & W5 & W6 & En4 & Hf4 & Hlog & Hcase & Ebs & Eacc & Hrest).
+    assert (S04 : Stay s t4).
+    { destruct Hlog as (r & Hl & Hr1 & Hr2 & Hr3). split; [eauto|]. intros k' i' sid (nd' & Hk' & Hi') Hs.
+      destruct (Z.eq_dec i' i) as [->|Hne].
+      - right. assert (k' = k) by (eapply WFx_one_node; [exact HW|exact Hk'|exact Hnk|exact Hi'|apply Hmem; left; reflexivity]). subst k'.
+        exists r. split; [rewrite Hl; apply in_or_app; right; left; reflexivity|]. split; [exact Hr1|]. split; [lia|exact Hr3].
+      - left. split.
+        + destruct (Nat.eq_dec k k') as [<-|Hnk'].
+          * exists ndk. rewrite En4. split; [eapply nth_error_upd_eq; exact Hnk|]. rewrite Hnk in Hk'. injection Hk' as <-.
+            apply Hmem in Hi'. destruct Hi' as [->|Hi']; [contradiction|exact Hi'].
+          * exists nd'. rewrite En4, nth_error_upd_neq by exact Hnk'. auto.
+        + rewrite <- Hs. apply ient_isv. rewrite Hf4. destruct (i' =? i) eqn:E; [apply Z.eqb_eq in E; contradiction|reflexivity]. }
+    assert (S45 : Stay t4 t5) by (eapply Stay_bsip_release; [exact (WFx_Idx _ _ W4)|exact Ebs]).
+    assert (S56 : Stay t5 t6).
+    { rewrite <- Hx3i in W5. destruct (d =? 0); [eapply Stay_exit_accept; eauto|eapply Stay_accept; eauto]. }
+    eapply Stay_trans; [exact S04|]. eapply Stay_trans; [exact S45|]. eapply Stay_trans; [exact S56|].
+    destruct Hrest as [->|(t7 & from & y & K7 & Hr)]; [apply Stay_refl|].
+    eapply Stay_trans; [apply Stay_K; exact K7|]. eapply IH; [exact (K_WFx _ _ _ K7 W6)|exact Hr].
+  Qed.
+
+  Lemma Stay_finish_service j fl s s' : WFx fl s -> finish_service cf j s = Ok (tt, s') -> Stay s s'.
+  Proof.
+    intros HW H. destruct (finish_service_decomp _ _ _ (WFx_Idx _ _ HW) H) as (s1 & K1 & [K2|(f & i & d & Hr)]).
+    - apply Stay_K. eapply K_trans; eauto.
+    - eapply Stay_trans; [apply Stay_K; exact K1|]. eapply Stay_release; [exact (K_WFx _ _ _ K1 HW)|exact Hr].
+  Qed.
+
+  Lemma Stay_release_individual j x fl s s' : WFx (i_id x :: fl) s -> release_individual cf j x s = Ok (tt, s') -> Stay s s'.
+  Proof.
+    intros HW H. destruct (release_individual_decomp _ _ _ _ (WFx_Idx _ _ HW) H) as (s0 & s1 & En & Es & Ei & El & K1 & Hc).
+    assert (W0 : WFx (i_id x :: fl) s0) by (eapply WFx_shape; eauto).
+    assert (S0 : Stay s s0).
+    { apply Stay_keep; [apply log_same; exact El|]. intros k i (nd & Hk & Hi). split; [exists nd; rewrite En; auto|].
+      rewrite Ei, isv_put. destruct (i =? i_id x) eqn:E; [|reflexivity]. apply Z.eqb_eq in E. subst i.
+      exfalso. eapply WFx_flying; [exact HW|left; reflexivity|exact Hk|exact Hi]. }
+    eapply Stay_trans; [exact S0|]. eapply Stay_trans; [apply Stay_K; exact K1|]. pose proof (K_WFx _ _ _ K1 W0) as W1.
+    destruct Hc as [[b Hc]|Hc]; [eapply Stay_exit_accept; eauto|eapply Stay_accept; eauto].
+  Qed.
+
+  Lemma Stay_batch_loop : forall n j c p s s', WFx [] s -> batch_loop cf n j c p s = Ok (tt, s') -> Stay s s'.
+  Proof.
+    induction n as [|n IH]; intros j c p s s' HW H; cbn [batch_loop] in H; [apply ret_spec in H as [-> _]; apply Stay_refl|].
+    mstep H. dtt.
+    match goal with E : modify _ s = Ok (_, ?s1) |- _ =>
+      assert (C1 : WFx [a_created (arr s) + 1] s1 /\ a_created (arr s1) = a_created (arr s) + 1 /\ Stay s s1) by
+        (unfold modify in E; inversion E; subst; split; [unfold WFx, shp in *; cbn; apply WFsh_spawn; exact HW|split; [reflexivity|]];
+         apply Stay_keep; [apply log_same; reflexivity|intros k i Ha; split; [exact Ha|reflexivity]]);
+      destruct C1 as (W1 & Ec & S1); clear HW E end.
+    mstep H. mstep H. dtt.
+    match goal with E : release_individual _ ?jj ?xx ?s0 = Ok (tt, ?s1) |- _ =>
+      assert (W1' : WFx (i_id xx :: []) s0) by (cbn [new_ind i_id]; rewrite Ec; exact W1);
+      assert (W2 : WFx [] s1) by (eapply release_individual_spec; [exact W1'|exact E]);
+      assert (S2 : Stay s0 s1) by (eapply Stay_release_individual; [exact W1'|exact E]) end.
+    eapply Stay_trans; [exact S1|]. eapply Stay_trans; [exact S2|]. eapply IH; eauto.
+  Qed.
+
+  Lemma Stay_arrival_have_event s s' : WFx [] s -> arrival_have_event cf s = Ok (tt, s') -> Stay s s'.
+  Proof.
+    intros HW H. destruct (arrival_have_event_decomp _ _ (WFx_Idx _ _ HW) H) as (s1 & s2 & n & j & c & p & K1 & Hb & K2).
+    pose proof (K_WFx _ _ _ K1 HW) as W1.
+    assert (W2 : WFx [] s2) by (eapply batch_loop_spec; eauto).
+    eapply Stay_trans; [apply Stay_K; exact K1|]. eapply Stay_trans; [eapply Stay_batch_loop; eauto|]. apply Stay_K. exact (K2 (WFx_Idx _ _ W2)).
+  Qed.
+
+  (* T2 for C04, the clause in time: over one event, a customer that holds a server at a node either is still at that node
+     with the same server, or a service record for it at that node was written during the event (it was released) *)
+  Theorem event_step_stays s s' : WFx [] s -> event_step cf s = Ok (tt, s') ->
+    forall k i sid, at_node s k i -> isv (inds s) i = Some sid -> (at_node s' k i /\ isv (inds s') i = Some sid) \/ left_node s' k i.
+  Proof.
+    intros HW H. destruct (event_step_decomp _ _ H) as (s2 & Hev & K2).
+    assert (W1 : WFx [] (s <| log := [] |>)) by (eapply WFx_shape; [|exact HW]; reflexivity).
+    assert (C2 : WFx [] s2 /\ Stay (s <| log := [] |>) s2).
+    { destruct Hev as [Ha|[j Hf]]; [split; [eapply arrival_have_event_spec; eauto|eapply Stay_arrival_have_event; eauto]
+                                   |split; [eapply finish_service_spec; eauto|eapply Stay_finish_service; eauto]]. }
+    destruct C2 as [W2 S2]. pose proof (Stay_trans _ _ _ S2 (Stay_K _ _ (K2 (WFx_Idx _ _ W2)))) as [_ S].
+    intros k i sid Ha Hs. exact (S k i sid Ha Hs).
+  Qed.
+
+  (* in terms of the servers: a busy server keeps its customer until that customer is released from the node *)
+  Theorem server_stays s s' : SrvInv cf s -> event_step cf s = Ok (tt, s') ->
+    forall k nd nc c sv i, nth_error (nodes s) k = Some nd -> nth_error (cf_nodes cf) k = Some nc -> nc_c nc = Some c ->
+      In sv (n_servers nd) -> sv_cust sv = Some i ->
+      (exists nd' sv', nth_error (nodes s') k = Some nd' /\ In i (all_individuals nd') /\
+                       In sv' (n_servers nd') /\ sv_id sv' = sv_id sv /\ sv_cust sv' = Some i /\ sv_busy sv' = true) \/
+      left_node s' k i.
+  Proof.
+    intros HJ H k nd nc c sv i Hk Hc Hcc Hsv Hcu. pose proof (event_step_srv _ _ HJ H) as [W' S']. destruct HJ as [HW HS].
+    pose proof (HS k nd nc Hk Hc) as HF. rewrite Hcc in HF. cbn in HF. destruct (fo_cust _ _ _ _ HF sv i Hsv Hcu) as [Hi Hs].
+    destruct (event_step_stays _ _ HW H k i (sv_id sv) (ex_intro _ nd (conj Hk Hi)) Hs) as [[(nd' & Hk' & Hi') Hs']|Hl]; [left|right; exact Hl].
+    pose proof (S' k nd' nc Hk' Hc) as HF'. rewrite Hcc in HF'. cbn in HF'.
+    destruct (fo_inv _ _ _ _ HF' i (sv_id sv) Hi' Hs') as (sv' & A1 & A2 & A3).
+    exists nd', sv'. split; [exact Hk'|]. split; [exact Hi'|]. split; [exact A1|]. split; [exact A2|]. split; [exact A3|].
+    rewrite (fo_busy _ _ _ _ HF' sv' A1), A3. reflexivity.
   Qed.
 End Servers.
 
@@ -1291,6 +1492,12 @@ Example ex_srv_rejects :
   srv_b ex_cf (ex_s <| inds := [ex_ind 1 1 true (Some 1); ex_ind 2 1 false (Some 2); ex_ind 3 1 false (Some 2); ex_ind 4 2 false None] |>) = false.
 Proof. vm_compute. reflexivity. Qed.
 
+(* the hypotheses of the run theorems are met by runs that succeed: four events from the example state (a service completion
+   with transfer to node 2 that hands the freed server to the waiting customer, then arrivals and further completions) *)
+Definition ex_draws : draws := mkDraws [3] [1] [5; 7; 9] [two53 / 2; 1; 2].
+Example ex_run : match run_many ex_cf ex_s [ex_draws; ex_draws; ex_draws; ex_draws] with Ok s' => srv_b ex_cf s' | _ => false end = true.
+Proof. vm_compute. reflexivity. Qed.
+
 (* ---------- T2 for C04 over whole runs, in the words of the property ---------- *)
 Theorem engine_servers cf : forall ds s s', SrvInv cf s -> run_many cf s ds = Ok s' ->
   forall k nd nc c, nth_error (nodes s') k = Some nd -> nth_error (cf_nodes cf) k = Some nc -> nc_c nc = Some c ->
@@ -1315,3 +1522,5 @@ Print Assumptions srv_means.
 Print Assumptions srv_b_sound.
 Print Assumptions ex_SrvInv.
 Print Assumptions engine_servers.
+Print Assumptions event_step_stays.
+Print Assumptions server_stays.
